@@ -57,6 +57,11 @@ CHECKS = {
         text='C08_rows_factor_through_physical_view, C08_rescaling, C08_bounds_physical are proved for all problems; pairs of generated problems differing only in nominals (2^-10..2^10, non-dyadic) are transcribed and must give equal rows / objective at corresponding decision vectors and equal physical boxes, and each is compared with the model.',
         note="Trusted: Coq kernel + vm_compute; harness generators / AST printers (the same AST is built in CasADi and printed as Gallina); transcribe() observed through nlp g/f/lbg/ubg/lbx/ubx at rational probe vectors (1e-8 relative; binary64 rounding not modelled); integrate_states, lookup tables, vector-valued variables and delayed feedback are outside this model. No axioms. Goal function nominals and the simulator's physical-unit accessors are covered by the C03/C17 and C09 checks.",
         ref='DESIGN.md §5 C08'),
+    "C04": dict(
+        technique="Coq proof (envelope algebra of the soft constraint rows for all nominals; critical goals as hard intervals; validation = well-formedness by boolean reflection) + correspondence of the Gallina validation model against _gp_validate_goals and real multi-priority solves judged by the envelope",
+        text="C04_soft_iff_envelope, C04_envelope_within_range, C04_inactive_steps_free, C04_critical_hard and C04_validate_iff_wellformed / C04_rejections are proved for all goals, targets (incl. NaN / inf steps), ranges, nominals and option combinations; _gp_validate_goals is run on a mostly-valid and a malformed goal stream and must accept exactly what the model accepts; real IPOPT runs of all variants are checked step by step against the envelope of the reported epsilon and for critical goals from their priority on.",
+        note="Trusted: Coq kernel + vm_compute; harness; IPOPT for the sampled runs (1e-6). Vector goals are not modelled. No axioms. Known finding C04-critical-conflict-clipped (open): a critical goal contradicting bounds retained from an earlier priority is clipped silently instead of failing.",
+        ref="DESIGN.md §5 C04"),
 }
 
 PENDING_REASON = "check not built yet (work in progress; see DESIGN.md §7 build order) — not claimed until its Coq model, theorems and correspondence check run clean on the unchanged tree"
